@@ -8,6 +8,8 @@ mod c03;
 mod c04;
 mod c05;
 mod c06;
+mod c07;
+mod c11;
 mod guard;
 mod c10;
 mod c16;
@@ -29,7 +31,9 @@ fn main() {
         "C04" => run_prop(c04::C04, &opts),
         "C05" => run_prop(c05::C05, &opts),
         "C06" => run_prop(c06::C06, &opts),
+        "C07" => run_prop(c07::C07, &opts),
         "C10" => run_prop(c10::C10, &opts),
+        "C11" => run_prop(c11::C11, &opts),
         "C16" => run_prop(c16::C16, &opts),
         o => {
             eprintln!("unknown property {o}");
